@@ -6,6 +6,7 @@ import (
 	"fmt"
 	"strconv"
 	"strings"
+	"sync"
 
 	"github.com/dcaiafa/lox/internal/parsergen/lr1"
 )
@@ -406,70 +407,105 @@ func shareSugar(r *Rng, s *GSpec) {
 	}
 }
 
+// desugarResult is what one specification contributes to the run.
+type desugarResult struct {
+	line, impl, oracle string
+	emit               bool
+	counts             []string
+	strings            int
+}
+
+func desugarEval(s *GSpec, replay bool, maxLen, budget int) (r desugarResult) {
+	r.line = desugarCase(s)
+	if !s.refsOK() {
+		r.counts = append(r.counts, "unrenderable")
+		r.emit, r.impl = replay, "rejected"
+		return r
+	}
+	fr := RunFront(s.Lox())
+	if !fr.OK {
+		r.counts = append(r.counts, "rejected")
+		r.emit, r.impl = true, "rejected" // the model answers `rejected` for what it knows the front end refuses
+		if strings.Contains(fr.Diag, "PANIC") {
+			r.counts = append(r.counts, "front-end-panic")
+			r.oracle = "C01: front end panicked: " + strings.ReplaceAll(fr.Diag, "\n", " ")
+		}
+		return r
+	}
+	r.counts = append(r.counts, "accepted")
+	nh := len(fr.Grammar.Rules) - 1 - len(s.Rules)
+	r.counts = append(r.counts, fmt.Sprintf("helpers=%d", min(nh, 8)))
+	if nh < len(s.sugarTerms()) {
+		r.counts = append(r.counts, "shared-helper")
+	}
+	r.oracle, r.strings = desugarOracle(s, fr.Grammar, maxLen, budget)
+	r.emit, r.impl = true, desugarListing(fr.Grammar)
+	return r
+}
+
 func init() {
 	register("desugar", "AST passes (normalize + numbering) vs Lox.LR.desugar; documented language of the sugar (C01/C03)", func(c *Ctx) {
 		maxLen, budget := 5, 1500
 		if c.Tier == "thorough" {
 			maxLen, budget = 6, 6000
 		}
-		runSpec := func(s *GSpec, replay bool) {
-			line := desugarCase(s)
-			if !s.refsOK() {
-				c.Count("unrenderable")
-				if replay {
-					c.Emit(line, "rejected")
-				}
-				return
-			}
-			fr := RunFront(s.Lox())
-			if !fr.OK {
-				c.Count("rejected")
-				if strings.Contains(fr.Diag, "PANIC") {
-					c.Count("front-end-panic")
-					c.EmitO(line, "rejected", "C01: front end panicked: "+strings.ReplaceAll(fr.Diag, "\n", " "))
-					return
-				}
-				// the model answers `rejected` for what it knows the front end refuses
-				c.Emit(line, "rejected")
-				return
-			}
-			c.Count("accepted")
-			if c.Distinct(line) {
-				nh := len(fr.Grammar.Rules) - 1 - len(s.Rules)
-				c.Count(fmt.Sprintf("helpers=%d", min(nh, 8)))
-				if nh < len(s.sugarTerms()) {
-					c.Count("shared-helper")
-				}
-			}
-			verdict, n := desugarOracle(s, fr.Grammar, maxLen, budget)
-			c.Counters["oracle-strings"] += n
-			c.EmitO(line, desugarListing(fr.Grammar), verdict)
-		}
-		if c.Replay != nil {
+		var specs []*GSpec
+		replay := c.Replay != nil
+		if replay {
 			for _, l := range c.Replay {
 				s, err := parseDesugarCase(l)
 				if err != nil {
-					c.Emit(l, "bad-op")
-					continue
+					s = nil
 				}
-				runSpec(s, true)
+				specs = append(specs, s)
 			}
-			return
+		} else {
+			specs = desugarAdversarial()
+			for i := 0; i < c.N; i++ {
+				o := GenOpts{MaxTokens: 2 + c.Rng.Intn(3), MaxRules: 1 + c.Rng.Intn(4), MaxProds: 1 + c.Rng.Intn(3),
+					MaxTerms: 1 + c.Rng.Intn(4), Sugar: true, Errors: c.Rng.Chance(1, 3)}
+				if c.Tier == "thorough" && c.Rng.Chance(1, 4) {
+					o.MaxRules, o.MaxProds, o.MaxTerms = 8, 4, 6
+				}
+				s := GenSpec(c.Rng, o)
+				if c.Rng.Chance(2, 3) {
+					shareSugar(c.Rng, s)
+				}
+				specs = append(specs, s)
+			}
 		}
-		for _, s := range desugarAdversarial() {
-			runSpec(s, false)
+		// evaluation (front end + language comparison) is independent per specification
+		res := make([]desugarResult, len(specs))
+		var wg sync.WaitGroup
+		sem := make(chan struct{}, 16)
+		for i := range specs {
+			if specs[i] == nil {
+				continue
+			}
+			wg.Add(1)
+			go func(i int) {
+				defer wg.Done()
+				sem <- struct{}{}
+				defer func() { <-sem }()
+				res[i] = desugarEval(specs[i], replay, maxLen, budget)
+			}(i)
 		}
-		for i := 0; i < c.N; i++ {
-			o := GenOpts{MaxTokens: 2 + c.Rng.Intn(3), MaxRules: 1 + c.Rng.Intn(4), MaxProds: 1 + c.Rng.Intn(3),
-				MaxTerms: 1 + c.Rng.Intn(4), Sugar: true, Errors: c.Rng.Chance(1, 3)}
-			if c.Tier == "thorough" && c.Rng.Chance(1, 4) {
-				o.MaxRules, o.MaxProds, o.MaxTerms = 8, 4, 6
+		wg.Wait()
+		for i, r := range res {
+			if specs[i] == nil {
+				c.Emit(c.Replay[i], "bad-op")
+				continue
 			}
-			s := GenSpec(c.Rng, o)
-			if c.Rng.Chance(2, 3) {
-				shareSugar(c.Rng, s)
+			fresh := c.Distinct(r.line)
+			for _, k := range r.counts {
+				if fresh || k == "accepted" || k == "rejected" {
+					c.Count(k)
+				}
 			}
-			runSpec(s, false)
+			c.Counters["oracle-strings"] += r.strings
+			if r.emit {
+				c.EmitO(r.line, r.impl, r.oracle)
+			}
 		}
 	})
 }
